@@ -105,6 +105,15 @@ func (r *objectSetPhasesReconciler) Reconcile(
 ) (res ctrl.Result, err error) {
 	defer r.backoff.GC()
 
+	if objectSet.IsSpecPaused() {
+		// A paused ObjectSet has to stop the controllers of all its delegated phases,
+		// whatever happens to this pass afterwards: a preflight violation, a collision
+		// or any other error in an earlier phase must not leave them running.
+		if err := r.pauseRemotePhases(ctx, objectSet, objectSet.GetPhases()); err != nil {
+			return res, err
+		}
+	}
+
 	violations, err := r.preflightChecker.Check(ctx, objectSet.GetPhases())
 	if err != nil {
 		return res, err
